@@ -128,7 +128,7 @@ Lemma st_pushpc : forall pc p st fk vs l o g, at_ pc (Ipushpc p) ->
   step nt code (N pc st fk vs l o g) = Next (N (S pc) (SPc p sc :: st) fk vs l o g).
 Proof. intros. stp H. Qed.
 Lemma st_callpc : forall pc p sc' st fk vs l o g, at_ pc Icallpc ->
-  step nt code (N pc (SPc p sc' :: st) fk vs l o g) = Next (N p st fk vs l o {| ctr := ctr g; creg := (pc, sc') |}).
+  step nt code (N pc (SPc p sc' :: st) fk vs l o g) = Next (N p st fk vs l o {| ctr := ctr g; creg := (Some pc, sc') |}).
 Proof. intros. stp H. Qed.
 
 Definition grow (vs : list sv) (off : nat) : list sv :=
@@ -138,11 +138,14 @@ Definition outer_of (sc : list frame) (id : nat) (idx : list frame) : list frame
   | Frame i _ _ _ _ out :: _ => if Nat.eqb i id then out else idx
   | [] => []
   end.
-Lemma st_scope : forall pc id nv na st fk vs l o g, at_ pc (Iscope id nv na) ->
+Lemma st_scope : forall pc id nv na st fk vs l o g cpc idx, at_ pc (Iscope id nv na) -> creg g = (Some cpc, idx) ->
   step nt code (N pc st fk vs l o g) =
-  Next (VM.Run (S pc) false None (mk (Frame id o (fst (creg g)) (ctr g) sc (outer_of sc id (snd (creg g))) :: sc) st fk
+  Next (VM.Run (S pc) false None (mk (Frame id o cpc (ctr g) sc (outer_of sc id idx) :: sc) st fk
                                      (grow vs (o + nv)) l (o + nv) {| ctr := S (ctr g); creg := creg g |})).
-Proof. intros. stp H. destruct (creg g) as [cpc idx]. reflexivity. Qed.
+Proof. intros. stp H. rewrite H0. reflexivity. Qed.
+Lemma st_callf : forall pc p st fk vs l o g, at_ pc (Icallf p) ->
+  step nt code (N pc st fk vs l o g) = Next (N p st fk vs l o {| ctr := ctr g; creg := (Some pc, sc) |}).
+Proof. intros. stp H. Qed.
 
 (* popfork *)
 Lemma st_popfork : forall e pc st o t fk vs l g,
@@ -214,7 +217,7 @@ Lemma st_ret_main : forall id off rpc stamp outer pc v st fk vs l o g, at_ pc Ir
   step nt code (N [Frame id off rpc stamp [] outer] pc (SV v :: st) fk vs l o g) =
   Emit v (Run rpc true None (mk [] st fk vs l
             (if (match fk with [] => true | f :: _ => f_ctr f <=? stamp end) then off else o)
-            {| ctr := ctr g; creg := (length code - 1, []) |})).
+            {| ctr := ctr g; creg := (Some (length code - 1), []) |})).
 Proof. intros. stp H. Qed.
 
 Lemma grow_len : forall vs o, o <= length (grow vs o).
